@@ -14,7 +14,8 @@ open ArvVerif.Facts.C05
 /-- every `if`/`for`/`case` condition of balanceBlock, in source order. Model counterparts:
 `replicaOn`; `runClasses` (desired == 0); `less` (four key tests); `trySlot`, `protectStep`,
 `wantStep`; `pass1`/`pass2`; `classIter` (underrep / `safeCount` / `wantDevMtimes`); `finalWant`;
-`change`. -/
+`change`; `lostFlag`. The list is that of the code after the fix: commits for F1 (protDev, safeDev,
+protDev in the multi-server loop), F2 (in-class test before counting) and F12 (lost after the loop). -/
 theorem tie_balanceConds : balanceConds =
   ["if blk.Replicas[r].KeepMount == mnt",
    "if desired == 0",
@@ -24,15 +25,18 @@ theorem tie_balanceConds : balanceConds =
    "if repli != replj",
    "if wantMnt[slot.mnt] || wantDev[slot.mnt.DeviceID]",
    "if replProt < desired && slot.repl != nil && !protMnt[slot.mnt]",
+   "if bal.mountsByClass[class][slot.mnt] && !protDev[slot.mnt.DeviceID]",
+   "if slot.mnt.DeviceID != \"\"",
    "if replWant < desired && (slot.repl != nil || !slot.mnt.ReadOnly)",
    "if slot.mnt.DeviceID != \"\"",
    "for i < len(slots) && !done",
    "if !wantSrv[slots[i].mnt.KeepService]",
    "for i < len(slots) && !done",
    "if !underreplicated",
-   "if slot.repl == nil || !bal.mountsByClass[class][slot.mnt]",
+   "if slot.repl == nil || !bal.mountsByClass[class][slot.mnt] || safeDev[slot.mnt.DeviceID]",
+   "if slot.mnt.DeviceID != \"\"",
    "if safe >= desired",
-   "if slot.repl != nil && wantDev[slot.mnt.DeviceID]",
+   "if slot.repl != nil && (wantDev[slot.mnt.DeviceID] || protDev[slot.mnt.DeviceID])",
    "if slot.repl != nil && (underreplicated || unsafeToDelete[slot.repl.Mtime])",
    "case !slot.want && slot.repl != nil && slot.repl.Mtime < bal.MinMtime",
    "case slot.repl == nil && slot.want && len(blk.Replicas) == 0",
@@ -41,6 +45,8 @@ theorem tie_balanceConds : balanceConds =
    "default",
    "if bal.Dumper != nil",
    "if slot.repl != nil",
+   "if !lost && len(blk.Replicas) == 0",
+   "if blk.Desired[class] > 0",
    "if bal.Dumper != nil"] := rfl
 
 /-- what each comparator branch and trySlot return (`less`, `trySlot`) -/
